@@ -593,6 +593,35 @@ class BodyView:
         return ("multi", -1)
 
 
+def local_helpers(prog, key, depth=4):
+    """Private, non-trait functions of the same file that `key` reaches through calls (transitively), with their
+    closures: code a maintainer moved out of `key` with extract-function is still part of what `key` does."""
+    b0 = prog.bodies[key]
+    out, todo = [], [(key, 0)]
+    seen = {key}
+    while todo:
+        k, d = todo.pop()
+        v = prog.view(k, None)
+        for _bi, t in v.calls():
+            n = callee_name(t["fn"])
+            b = prog.bodies.get(n)
+            if b is None or n in seen:
+                continue
+            is_closure = b["kind"] == "Closure"
+            private_helper = b["kind"] in ("Fn", "AssocFn") and b.get("vis") != "pub" and b["file"] == b0["file"] \
+                and not (prog.impl_of(b) or {}).get("trait")
+            if (is_closure or private_helper) and d < depth:
+                seen.add(n)
+                out.append(n)
+                todo.append((n, d + 1))
+        for k2 in prog.bodies:
+            if k2.startswith(k + "::{closure") and k2 not in seen:
+                seen.add(k2)
+                out.append(k2)
+                todo.append((k2, d + 1))
+    return out
+
+
 _SOLE_CALLER = {}
 
 
